@@ -23,6 +23,14 @@ func GetKeyFromField(field reflect.StructField, fallback string, tag *string) st
 
 type DpFactory = func() (DataProvider, *ZogIssue)
 
+var (
+	mapStringString  = reflect.TypeOf(map[string]string(nil))
+	mapStringInt     = reflect.TypeOf(map[string]int(nil))
+	mapStringFloat64 = reflect.TypeOf(map[string]float64(nil))
+	mapStringBool    = reflect.TypeOf(map[string]bool(nil))
+	mapStringAny     = reflect.TypeOf(map[string]any(nil))
+)
+
 // This is used for parsing structs & maps
 type DataProvider interface {
 	Get(key string) any
@@ -146,17 +154,20 @@ func TryNewAnyDataProvider(val any) (DataProvider, error) {
 
 		valTyp := x.Type().Elem()
 
-		switch valTyp.Kind() { // TODO: add more types
-		case reflect.String:
-			return NewSafeMapDataProvider(x.Interface().(map[string]string)), nil
-		case reflect.Int:
-			return NewSafeMapDataProvider(x.Interface().(map[string]int)), nil
-		case reflect.Float64:
-			return NewSafeMapDataProvider(x.Interface().(map[string]float64)), nil
-		case reflect.Bool:
-			return NewSafeMapDataProvider(x.Interface().(map[string]bool)), nil
-		case reflect.Interface:
-			return NewSafeMapDataProvider(x.Interface().(map[string]any)), nil
+		// named map types (type M map[string]any) are converted to their unnamed form; maps whose key or
+		// element type is itself a named type cannot be converted and are reported as an error
+		mapTyp := x.Type()
+		switch { // TODO: add more types
+		case mapTyp.ConvertibleTo(mapStringString):
+			return NewSafeMapDataProvider(x.Convert(mapStringString).Interface().(map[string]string)), nil
+		case mapTyp.ConvertibleTo(mapStringInt):
+			return NewSafeMapDataProvider(x.Convert(mapStringInt).Interface().(map[string]int)), nil
+		case mapTyp.ConvertibleTo(mapStringFloat64):
+			return NewSafeMapDataProvider(x.Convert(mapStringFloat64).Interface().(map[string]float64)), nil
+		case mapTyp.ConvertibleTo(mapStringBool):
+			return NewSafeMapDataProvider(x.Convert(mapStringBool).Interface().(map[string]bool)), nil
+		case mapTyp.ConvertibleTo(mapStringAny):
+			return NewSafeMapDataProvider(x.Convert(mapStringAny).Interface().(map[string]any)), nil
 		default:
 			return &EmptyDataProvider{Underlying: val}, fmt.Errorf("could not convert map[string]%s to a data provider", valTyp.String())
 		}
